@@ -179,6 +179,10 @@ func (e *e2) run() {
 	s.onPoint = func(name, detail string) {
 		if name == "feed.term" {
 			// the watcher goroutine has been released: it closes the feed's queue right now
+			// (detail = "<feed id>/<scope>.<collection>")
+			if i := strings.Index(detail, "/"); i >= 0 {
+				detail = detail[:i]
+			}
 			e.mu.Lock()
 			e.termSeq[detail] = e.seq.Add(1)
 			e.mu.Unlock()
@@ -209,6 +213,11 @@ func (e *e2) run() {
 	e.ctxs[s.rootGID] = rootCtx
 	for i := range p.Setup {
 		op := &p.Setup[i]
+		if isControlKind(op.Kind) {
+			r := e.control(op, rootCtx)
+			e.logf("setup %s -> %s", op, r)
+			continue
+		}
 		d := e.init[op.Coll][op.Key]
 		op.CasArg = 0
 		if op.CasMode == "cur" {
@@ -362,7 +371,7 @@ func (e *e2) startFeed(fs FeedSpec) (*FeedLog, error) {
 		for i := range colls {
 			colls[i] = i
 		}
-		f, err = e.w.StartBucketFeed(fs.Handle, colls, fs.ID, bf, fs.Dump, stepFn)
+		f, err = e.w.StartBucketFeed(fs.Handle, colls, fs.ID, bf, fs.Dump, fs.Ckpt, stepFn)
 	} else {
 		f, err = e.w.StartFeed(fs.Handle, fs.Coll, fs.ID, bf, fs.Dump, fs.KeysOnly, fs.Ckpt, stepFn)
 	}
@@ -411,6 +420,11 @@ func (e *e2) client(ti int) {
 		if op.Handle == -1 {
 			op.Handle = mine
 		}
+		if i > 0 {
+			// a scheduling point (and quiescence of everything the previous operation set in motion)
+			// between two operations of a client
+			e.s.pointHook("op", "")
+		}
 		h := &HistEntry{Task: ti, Idx: i, Op: op}
 		e.mu.Lock()
 		e.hist = append(e.hist, h)
@@ -446,7 +460,7 @@ func isReadKind(k string) bool {
 
 func isControlKind(k string) bool {
 	switch k {
-	case "StartFeed", "StopFeed", "WaitFeed", "Close", "CloseAndDelete", "DropColl", "CreateColl", "OpenHandle", "Sleep", "View", "Yield", "PutDDoc":
+	case "StartFeed", "StopFeed", "WaitFeed", "Close", "CloseAndDelete", "DropColl", "CreateColl", "OpenHandle", "OpenOther", "Sleep", "View", "Yield", "PutDDoc", "DelDDoc":
 		return true
 	}
 	return false
@@ -565,6 +579,8 @@ func (e *e2) judge() {
 		e.judgeInsertRace(hist)
 	case "expiry-race":
 		e.judgeExpiryRace(hist)
+	case "view-race":
+		e.judgeViewRace(hist)
 	}
 }
 
@@ -683,6 +699,18 @@ func (e *e2) judgeLinearizable(hist []*HistEntry) {
 			tags := []string{"C03"}
 			if strings.HasPrefix(e.p.Scenario, "subdoc") {
 				tags = append(tags, "C18") // read-modify-write of a property not equivalent to an atomic one
+			}
+			sc := e.p.Scenario
+			if oracle != "linearizability" {
+				sc = "" // the recorded C03 defect: belongs to no other property
+			}
+			switch sc {
+			case "lin-rw":
+				tags = append(tags, "C01") // a read did not return what the most recent successful write left
+			case "lin-tomb":
+				tags = append(tags, "C05") // observers disagree on deleted / live, or a deleted body came back
+			case "lin-xattr":
+				tags = append(tags, "C07") // an xattr write touched more than it named (body, expiry, other xattrs)
 			}
 			if e.p.Scenario == "rev-race" {
 				tags = append(tags, "C17") // the model state includes the revision number and the final $document
